@@ -6,4 +6,6 @@ export GOFLAGS=-mod=mod GOPROXY=off GOSUMDB=off GOTOOLCHAIN=local
 cp /repo/go.sum go.sum
 mkdir -p bin
 go build -tags verif -o bin/simworker ./cmd/simworker
+# the C08 other-process follower runs under the Go runtime's fake wall clock
+go build -tags "verif faketime" -o bin/simworker-faketime ./cmd/simworker
 echo "simworker built: $(./bin/simworker list | tr '\n' ' ')"
